@@ -343,6 +343,27 @@ func (r *vConnRun) runActor(a vActorSpec) {
 		case "WriteT":
 			r.c.SetWriteTimeout(time.Hour)
 			r.write(arg)
+		case "AppendV":
+			// k small separately-built buffers appended (the mux pattern: one node each) and one Flush
+			k, size := arg, int(op[2].(float64))
+			r.c.SetWriteTimeout(0)
+			r.ev("Call", "Write", k*size, 0, "")
+			var err error
+			for i := 0; i < k && err == nil; i++ {
+				lb := NewLinkBuffer()
+				buf, _ := lb.Malloc(size)
+				for j := range buf {
+					buf[j] = vStreamByte(r.wrpos + i*size + j)
+				}
+				err = r.c.Writer().Append(lb)
+			}
+			if err == nil {
+				err = r.c.Writer().Flush()
+			}
+			if err == nil {
+				r.wrpos += k * size
+			}
+			r.ev("Ret", "Write", k*size, r.peerPending(), vErrClass(err))
 		case "WriteV":
 			// k caller-memory payloads (> 4 KiB each, so each becomes its own node) and one Flush
 			k, size := arg, int(op[2].(float64))
